@@ -74,7 +74,31 @@ class RecursiveSeqletEmit(FragmentContract):
         return replay_fragment_generic(self._world, self, cfg, env)
 
 
-class RecursiveSeqletCsum(FragmentContract):
+class _KernelInputs:
+    """inputs of the whole kernel _recursive_seqlets for the bounds-checked replay (vf/boundscheck.py): small random
+    tracks with planted bumps, every argument inside the kernel's domain (threshold < 1, 1 <= min <= max < l)"""
+
+    def random_inputs(self, cfg, rng):
+        import numpy
+        n, l = rng.randint(1, 3), rng.randint(8, 40)
+        lo = rng.randint(1, 4)
+        hi = rng.randint(lo, min(lo + 6, l - 2))
+        X = numpy.array([[rng.choice([-1.0, -0.5, -0.25, 0.25, 0.5, 1.0]) for _ in range(l)] for _ in range(n)])
+        for _ in range(rng.randint(0, 3)):
+            r, c = rng.randrange(n), rng.randrange(l)
+            w = rng.randint(2, 6)
+            X[r, max(0, c - w):c + w] += rng.choice([-3.0, 3.0, 5.0])
+        if rng.random() < 0.3:
+            X[:, :3] += 4.0      # a bump at position 0
+        if rng.random() < 0.3:
+            X[:, -3:] += 4.0     # and at the end
+        return [X], dict(threshold=rng.choice([0.01, 0.05, 0.2, 0.5]), min_seqlet_len=lo, max_seqlet_len=hi, additional_flanks=rng.choice([0, 0, 1, 3, 5]))
+
+    def show_inputs(self, args, kwargs):
+        return '_recursive_seqlets(X=%s, %s)' % (args[0].tolist(), ', '.join('%s=%s' % kv for kv in sorted(kwargs.items())))
+
+
+class RecursiveSeqletCsum(_KernelInputs, FragmentContract):
     """C19 (prefix-sum table of _recursive_seqlets, its first statements): X_csum[i, j] is the sum of X[i, 0..j] for
     every row and position (the table the emission block reads the reported attribution from - there it is an
     assumption, here it is the postcondition), every cell of the numpy.empty_like buffer is written, every access
@@ -149,7 +173,7 @@ class RecursiveSeqletCsum(FragmentContract):
         return replay_fragment_generic(self._world, self, cfg, dict(X=X))
 
 
-class RecursiveSeqletCdf(FragmentContract):
+class RecursiveSeqletCdf(_KernelInputs, FragmentContract):
     """C19 (null-distribution tables of _recursive_seqlets, the statements between the prefix-sum table and the
     p-value matrix): for every seqlet length j in [min_seqlet_len, max_seqlet_len], xmins[j] <= s <= xmaxs[j] for the
     sum s of EVERY window of length j of every row (and xmins[j] <= 0 <= xmaxs[j]); every array access is inside its
@@ -239,7 +263,7 @@ class RecursiveSeqletCdf(FragmentContract):
         return []
 
 
-class RecursiveSeqletPvalueRow(FragmentContract):
+class RecursiveSeqletPvalueRow(_KernelInputs, FragmentContract):
     """C19 (p-value matrix of _recursive_seqlets, the body of the loop over seqlet lengths inside the per-example loop):
     given tables whose extrema bound every window sum of length j (the postcondition of the table construction), the
     look-up cell floor(999 * s / extremum) of every window lies in [0, 999] and every other access is inside its array
@@ -289,6 +313,96 @@ class RecursiveSeqletPvalueRow(FragmentContract):
                ('only-cells-[j, 1..l-j-1]-written', O.forall(pv0.shape, lambda r, c: Implies(Or(O.ne(r, j), c < 1, c >= l - j), O.eq(pv1.elem(r, c), pv0.elem(r, c)))))]
         for nm in ('X_csum', 'xmins', 'xmaxs', 'X_cdfs'):
             out.extend(same(getattr(a, nm), getattr(b, nm), nm + '-unwritten'))
+        return out
+
+    def replay_fragment(self, cfg, st):
+        return []
+
+
+def _sink_append(fr, sink, item):
+    """`seqlets.append((i, start, end, attr, p))` inside the calling loop: the list is a sink here; what is appended
+    must be a well-formed seqlet (obligations at the append site, i.e. for every seqlet ever appended)"""
+    ctx, env = fr.ctx, fr.env
+    ok_shape = isinstance(item, tuple) and len(item) == 5
+    ctx.oblige('appended:is-a-5-tuple', ok_shape, 'ensures')
+    if not ok_shape:
+        return None
+    i, s, e, attr, p = [v.elem() if isinstance(v, Tn) and v.rank == 0 else v for v in item]
+    l, j, af = env['l'], env['j'], env['additional_flanks']
+    lo, hi = env['min_seqlet_len'], env['max_seqlet_len']
+    C = env['X_csum']
+    ctx.oblige('appended:example-index', O.eq(i, env['i']), 'ensures')
+    ctx.oblige('appended:inside-the-example', And(0 <= s, s < e, e <= l), 'ensures')
+    ctx.oblige('appended:p-value-not-above-the-threshold', p <= env['threshold'], 'ensures')
+    ctx.oblige('appended:length-before-flanks-between-min-and-max', And(lo <= j - 1, j - 1 <= hi, j - 1 <= e - s, e - s <= j - 1 + 2 * af), 'ensures')
+    ctx.oblige('appended:attribution-is-the-span-sum', O.eq(attr, C.elem(env['i'], e - 1) - ite(s > 0, C.elem(env['i'], ite(s > 0, s - 1, 0)), 0)), 'ensures')
+    sink.attrs['n'] = sink.attrs.get('n', 0) + 1
+    return None
+
+
+class RecursiveSeqletCalls(_KernelInputs, FragmentContract):
+    """C19 (seqlet calling of _recursive_seqlets, the body of the loop over lengths j = max .. min+1 inside the
+    per-example loop): EVERY seqlet appended lies inside its example (0 <= start < end <= l), has p <= threshold,
+    spans j - 1 positions before flanks (min_seqlet_len <= j - 1 <= max_seqlet_len; with flanks at most 2*flanks
+    more) and reports the prefix-sum difference of its span; every access of p_value and X_csum is inside its array
+    (numba) - the extension step reads p_value[j-k, end+1] with end+1 < l because a called start lies in the written
+    range [1, l-j) - and the representation invariant of the p-value matrix (cells outside [1, l-r) of row r hold 1)
+    is preserved.  Precondition: threshold < 1."""
+    qualname = 'tangermeme.seqlet._recursive_seqlets'
+    props = ('C19',)
+    loop_ordinal = 12
+    key = 'tangermeme.seqlet._recursive_seqlets#calls'
+
+    def scopes(self, cfg):
+        return []
+
+    @staticmethod
+    def I1(fa, pv, l):
+        return fa(pv.shape, lambda r, c: Implies(Or(c < 1, c >= l - r), O.eq(pv.elem(r, c), 1)))
+
+    def make_env(self, cfg, A):
+        from vf.values import Opaque
+        n, l = A.dim('n', 1), A.dim('l', 1)
+        lo, hi = A.int('min_seqlet_len', lo=1), A.int('max_seqlet_len', lo=1)
+        A.assume(lo <= hi)
+        C = A.tensor('X_csum', 2, 'real', lib='np', shape=[n, l])
+        pv = A.tensor('p_value', 2, 'real', lib='np', shape=[hi + 1, l])
+        thr = A.real('threshold')
+        A.assume(thr < 1)
+        i = A.int('i', lo=0)
+        jj = A.int('j', lo=0)           # the loop variable of `for j in range(max - min)` (re-bound to max - j by the body)
+        A.assume(i < n, jj < hi - lo)
+        A.assume(self.I1(O.forall_hyp, pv, l))
+        return dict(X_csum=C, p_value=pv, threshold=thr, i=i, j=jj, n=n, l=l, min_seqlet_len=lo, max_seqlet_len=hi,
+                    additional_flanks=A.int('additional_flanks', lo=0), seqlets=Opaque('seqlets', 'seqlet_sink', {}))
+
+    def loops(self):
+        I1 = self.I1
+
+        def base(E, fr):
+            env = fr.env
+            pv = env['p_value']
+            return [('p_value-shape', And(O.eq(pv.shape[0], env['max_seqlet_len'] + 1), O.eq(pv.shape[1], env['l']))),
+                    ('cells-outside-the-written-range-hold-1', I1(E.forall, pv, env['l']))]
+
+        def ext(E, fr):
+            env = fr.env
+            return base(E, fr) + [('end = start + k', O.eq(env['end'], env['start'] + E.it)),
+                                  ('called-start-lies-in-the-written-range', And(1 <= env['start'], env['start'] < env['l'] - env['j'])),
+                                  ('p <= threshold', env['p'] <= env['threshold'])]
+
+        def ext_break(E, fr):
+            return base(E, fr)
+        return {13: LoopSpec(base, on_break=base), 14: LoopSpec(ext, on_break=ext_break), 15: LoopSpec(base), 16: LoopSpec(base)}
+
+    def post_env(self, b, a, outcome, cfg):
+        out = [('no-exception', not outcome.startswith('raise'))]
+        if not out[0][1]:
+            return out
+        pv = a.p_value
+        out.append(('p_value-shape', And(O.eq(pv.shape[0], b.p_value.shape[0]), O.eq(pv.shape[1], b.p_value.shape[1]))))
+        out.append(('cells-outside-the-written-range-hold-1', self.I1(O.forall, pv, b.l)))
+        out.extend(same(a.X_csum, b.X_csum, 'X_csum-unwritten'))
         return out
 
     def replay_fragment(self, cfg, st):
@@ -426,5 +540,7 @@ def register(world):
     world.register_fragment(RecursiveSeqletCsum())
     world.register_fragment(RecursiveSeqletCdf())
     world.register_fragment(RecursiveSeqletPvalueRow())
+    world.register_fragment(RecursiveSeqletCalls())
+    world.methods['seqlet_sink.append'] = _sink_append
     world.register_fragment(TfmodiscoSeqletRow())
     world.register_fragment(IterativeExtractStep())
